@@ -141,8 +141,8 @@ def run(ctx):
         if kinds_of.get(d) == "corpus" and (os.path.basename(d).startswith("rel_") or os.path.basename(d) == "zero_div_pow"):
             rel.add(d)
     # boundary ALU shapes at asm level, debug and release (constant_propagate folds/identities/immediates)
-    d = gen_alu_pkg(base, "alu_dbg"); pkgs.append(d); kinds_of[d] = "generated-alu"
-    d = gen_alu_pkg(base, "alu_rel"); pkgs.append(d); kinds_of[d] = "generated-alu-release"; rel.add(d)
+    d = gen_alu_pkg(base, "alu_dbg", ("cc", "oc") if ctx.quick else ("cc", "oc", "co")); pkgs.append(d); kinds_of[d] = "generated-alu"
+    d = gen_alu_pkg(base, "alu_rel", ("cc", "co") if ctx.quick else ("cc", "oc", "co")); pkgs.append(d); kinds_of[d] = "generated-alu-release"; rel.add(d)
     for k in range(1 if ctx.quick else 5):
         d = gen_effects_pkg(ctx.rng, base, "fx_%d" % k, 4 if ctx.quick else 10); pkgs.append(d); kinds_of[d] = "generated-effects"
         d, _ = C08.gen_spill_pkg(ctx.rng, base, "sp_%d" % k, 2 if ctx.quick else 5); pkgs.append(d); kinds_of[d] = "generated-spill"
